@@ -319,6 +319,14 @@ def content_split(R, ctx, rid):
                 any(x[0] == "agg" and x[1].endswith("ItemContent::" + arm) for x in walk(rt))
             ok = comp(kt, 0) and comp(rt, 1) and same
             why = "kept = split(.., offset).0: %s; returned = split(.., offset).1: %s; same kind: %s" % (comp(kt, 0), comp(rt, 1), same)
+        elif arm in ret and arm in ("Any", "JSON"):
+            # in-place form: `Some(Kind(v.split_off(offset)))` — the vector keeps [..offset] itself and hands out [offset..]
+            rt = ret[arm][0][0]
+            off_ok = any(x[0] == "call" and re.search(r"Vec::split_off$", F.strip_generics(x[1])) and len(x[2]) >= 2 and is_off(x[2][1]) and
+                         term_has_field(x[2][0], "ItemContent::%s.0" % arm) for x in walk(rt))
+            same = any(x[0] == "agg" and x[1].endswith("ItemContent::" + arm) for x in walk(rt))
+            ok = off_ok and same
+            why = "returned = split_off(.., offset), the rest kept in place: %s; same kind: %s" % (off_ok, same)
         R.ob(rid, fn, "arm:" + arm, ok, why)
     # Deleted(len)
     ok = False
